@@ -98,3 +98,22 @@ Theorem C05_established_delivers_only_what_recv_delivers :
     In (ODeliver p e q) (snd (recv W lease s w)).
 Proof. exact deliver_only_authentic_est. Qed.
 Print Assumptions C05_established_delivers_only_what_recv_delivers.
+
+(* Since the ChangeCipherSpec repair (a CCS-typed record claiming a protected epoch is discarded)
+   the property's own exclusion "any content type but change_cipher_spec" is no longer needed:
+   EVERY record that claims a protected epoch and does not authenticate is inert. *)
+Theorem C05_forged_inert_any_type :
+  forall W lease s w,
+    w_epoch w <> 0 -> w_auth w = None ->
+    snd (recv W lease s w) = [] /\
+    same_except_queue s (fst (recv W lease s w)) /\
+    (r_queue (fst (recv W lease s w)) = r_queue s \/
+     (r_queue (fst (recv W lease s w)) = r_queue s ++ [w] /\ (length (r_queue s) < max_queue)%nat /\
+      lease = true /\ (w_epoch w = r_epoch s + 1 \/ r_init s = false))).
+Proof. exact forged_inert_any_type. Qed.
+Print Assumptions C05_forged_inert_any_type.
+
+Theorem C05_unprotected_ccs_inert_established :
+  forall W lease s w, unprotected_ccs w = true -> recv_est true W lease s w = (s, []).
+Proof. exact unprotected_ccs_inert_established. Qed.
+Print Assumptions C05_unprotected_ccs_inert_established.
